@@ -22,6 +22,7 @@ import (
 	"github.com/AdguardTeam/AdGuardHome/internal/filtering/rulelist"
 	"github.com/AdguardTeam/AdGuardHome/internal/verifc15"
 	"github.com/miekg/dns"
+	"gopkg.in/yaml.v3"
 )
 
 // Correspondence harness for the refresh half of C15: sequences of refreshes
@@ -170,7 +171,8 @@ type c15List struct {
 	Name    string `json:"name"`
 }
 
-// c15Step is one refresh (Set == nil), one set_url call, or one engine rebuild.
+// c15Step is one refresh (Set == nil), one set_url call, one engine rebuild,
+// or one restart of the process.
 type c15Step struct {
 	Block   bool                 `json:"block"`
 	Allow   bool                 `json:"allow"`
@@ -179,6 +181,11 @@ type c15Step struct {
 	Scripts map[string]c15Script `json:"scripts"`
 	Set     *c15Set              `json:"set,omitempty"`
 	Rebuild bool                 `json:"rebuild,omitempty"`
+	// Restart: the lists are written to the configuration file as home does
+	// it, the filter is closed, and a new one is created from that file on the
+	// same data directory (filtering.New, then EnableFilters as startDNSServer
+	// calls it).
+	Restart bool `json:"restart,omitempty"`
 	// Limit, if set: the size in bytes no regular file may grow beyond during
 	// the step, so that the writes to the pending files fail from there on.
 	Limit *int `json:"pending_file_takes,omitempty"`
@@ -429,6 +436,11 @@ func c15GenHist(r *vfRand) (h c15Hist) {
 	// the time the next step enables it again, two times in three against a
 	// failing source.
 	var reenable *c15List
+	// restartedSince: the process has restarted since that call; lastGood: the
+	// last script of a working source a refresh step gave the list (a guess of
+	// what is stored for it).
+	restartedSince := false
+	lastGood := map[int64]c15Script{}
 	for i := 0; i < n; i++ {
 		st := c15Step{Block: !r.Chance(1, 6), Allow: !r.Chance(1, 6), Force: r.Chance(1, 2), Scripts: map[string]c15Script{}}
 		for _, l := range h.Lists {
@@ -455,10 +467,20 @@ func c15GenHist(r *vfRand) (h c15Hist) {
 			continue
 		}
 		switch {
+		case reenable != nil && !restartedSince && r.Chance(1, 3):
+			// The process restarts while the list is disabled; the list may be
+			// enabled again in the next step.
+			st.Restart = true
+			restartedSince = true
 		case reenable != nil && r.Chance(3, 4):
 			l := *reenable
 			st.Set = &c15Set{ID: l.ID, Enabled: true, Name: l.Name}
-			if r.Chance(2, 3) {
+			if g, ok := lastGood[l.ID]; ok && restartedSince && r.Chance(1, 2) {
+				// The source serves what it served when the list was last
+				// refreshed: unchanged content after a restart.
+				st.Scripts[strconv.FormatInt(l.ID, 10)] = g
+				last[l.ID] = g
+			} else if r.Chance(2, 3) {
 				st.Scripts[strconv.FormatInt(l.ID, 10)] = failingFor(l)
 				last[l.ID] = st.Scripts[strconv.FormatInt(l.ID, 10)]
 			}
@@ -490,14 +512,25 @@ func c15GenHist(r *vfRand) (h c15Hist) {
 			}
 			if !st.Set.Enabled && st.Set.Dup == 0 && st.Set.ID == l.ID {
 				reenable = &l
+				restartedSince = false
 			}
 		case r.Chance(1, 10):
 			reenable = nil
 			st.Rebuild = true
+		case r.Chance(1, 8):
+			reenable = nil
+			st.Restart = true
 		default:
 			reenable = nil
 		}
-		if !st.Rebuild && r.Chance(1, 8) {
+		if st.Set == nil && !st.Rebuild && !st.Restart {
+			for _, l := range h.Lists {
+				if sc := st.Scripts[strconv.FormatInt(l.ID, 10)]; (sc.Kind == "ok" || sc.Kind == "file-ok") && verifc15.Classify([]byte(sc.Content)).Clean() {
+					lastGood[l.ID] = sc
+				}
+			}
+		}
+		if !st.Rebuild && !st.Restart && r.Chance(1, 8) {
 			// The pending files take only so many bytes during this step.
 			longest := 0
 			for _, sc := range st.Scripts {
@@ -586,27 +619,63 @@ func c15Run(t *testing.T, out *vfOut, srv *c15Server, h c15Hist, forced ...strin
 	for _, l := range h.Lists {
 		key[l.ID] = l.ID
 	}
-	conf := &Config{
-		DataDir:                    dir,
-		HTTPClient:                 &http.Client{Timeout: 5 * time.Second, Transport: &http.Transport{DisableKeepAlives: true}},
-		FiltersUpdateIntervalHours: 24,
-		FilteringEnabled:           true,
-		SafeFSPatterns:             []string{filepath.Join(srcDir, "*.txt")},
+	// newConf is the configuration a process starts with: what does not come
+	// from the lists of the configuration file is the same in every life.
+	newConf := func(block, allow []FilterYAML) *Config {
+		return &Config{
+			DataDir:                    dir,
+			HTTPClient:                 &http.Client{Timeout: 5 * time.Second, Transport: &http.Transport{DisableKeepAlives: true}},
+			FiltersUpdateIntervalHours: 24,
+			FilteringEnabled:           true,
+			SafeFSPatterns:             []string{filepath.Join(srcDir, "*.txt")},
+			Filters:                    block,
+			WhitelistFilters:           allow,
+		}
 	}
+	var bl0, al0 []FilterYAML
 	for _, l := range h.Lists {
 		f := FilterYAML{Enabled: l.Enabled, URL: urlFor(l, l.ID, ""), Name: l.Name, Filter: Filter{ID: rulelist.URLFilterID(l.ID)}, white: l.Allow}
 		if l.Allow {
-			conf.WhitelistFilters = append(conf.WhitelistFilters, f)
+			al0 = append(al0, f)
 		} else {
-			conf.Filters = append(conf.Filters, f)
+			bl0 = append(bl0, f)
 		}
 	}
-	d, err := New(conf, nil)
+	d, err := New(newConf(bl0, al0), nil)
 	if err != nil {
 		t.Fatal(err)
 	}
-	defer d.Close()
+	defer func() { d.Close() }()
 	d.EnableFilters(false)
+	// restartNow ends this life of the filter and starts the next one: the
+	// lists as WriteDiskConfig hands them to home, through YAML as home writes
+	// and reads configuration.filters / whitelist_filters (so only what the
+	// file keeps survives), the old filter closed, filtering.New on the same
+	// data directory (MkdirAll, loadFilters for both arrays, deduplicateFilters,
+	// idGenerator.fix), and EnableFilters(false) as startDNSServer calls it.
+	// The updates loop (Start) is not started: refreshes are steps of the
+	// history.
+	restartNow := func() {
+		written := &Config{}
+		d.WriteDiskConfig(written)
+		through := func(in []FilterYAML) (out []FilterYAML) {
+			b, yerr := yaml.Marshal(in)
+			if yerr != nil {
+				t.Fatal(yerr)
+			}
+			if yerr = yaml.Unmarshal(b, &out); yerr != nil {
+				t.Fatal(yerr)
+			}
+			return out
+		}
+		block, allow := through(written.Filters), through(written.WhitelistFilters)
+		d.Close()
+		d, err = New(newConf(block, allow), nil)
+		if err != nil {
+			t.Fatal(err)
+		}
+		d.EnableFilters(false)
+	}
 
 	classes := map[string]bool{}
 	for _, f := range forced {
@@ -705,12 +774,14 @@ func c15Run(t *testing.T, out *vfOut, srv *c15Server, h c15Hist, forced ...strin
 	var steps []string
 	var defs []vfDef
 	nontrivial := false
-	seen := map[int64][]uint32{}       // checksums stored so far, per list
-	var failedSet *c15FailedSet        // the set_url call of the previous step failed
-	forgot := map[int64]bool{}         // see c15FollowUpAfterFailedURLChange
-	afterFailedURL := map[int64]bool{} // the URL change of this enabled, stored list has failed since its last refresh
+	seen := map[int64][]uint32{}            // checksums stored so far, per list
+	var failedSet *c15FailedSet             // the set_url call of the previous step failed
+	forgot := map[int64]bool{}              // see c15FollowUpAfterFailedURLChange
+	afterFailedURL := map[int64]bool{}      // the URL change of this enabled, stored list has failed since its last refresh
+	loadedAtRestart := map[int64]bool{}     // the metadata of this enabled list are those the last start-up computed from its file
+	disabledOverRestart := map[int64]bool{} // the list was disabled, with a stored file, when the process last restarted, and still is
 	for _, st := range h.Steps {
-		if st.Set == nil && !st.Rebuild && len(forgot) > 0 {
+		if st.Set == nil && !st.Rebuild && !st.Restart && len(forgot) > 0 {
 			// See c15FollowUpAfterFailedURLChange.
 			classes["refresh-left-out-after-forgotten-checksum"] = true
 			continue
@@ -748,8 +819,112 @@ func c15Run(t *testing.T, out *vfOut, srv *c15Server, h c15Hist, forced ...strin
 		}
 		inStepBefore := fmt.Sprint(expected(prev)) == fmt.Sprint(prevV)
 
+		if st.Restart {
+			// The process restarts.  Monitor: no file is touched; every list is
+			// still there with its URL and its flag; what the start-up computes
+			// from the stored file of an enabled list is what the list had (the
+			// stored form is stable: same rule count and checksum; the name kept
+			// unless there was none); the rules in force are those of the stored
+			// files of the enabled lists.  Rule count and checksum of a disabled
+			// list are left to the comparison with the model.
+			var pan any
+			func() {
+				defer func() { pan = recover() }()
+				restartNow()
+			}()
+			if pan != nil {
+				bad("C15/restart-panic", fmt.Sprintf("the restart panicked: %v", pan))
+			}
+			cur, curV := observe(), verdicts()
+			classes["restart"] = true
+			if len(steps) == 0 {
+				classes["restart-first-step"] = true
+			}
+			for _, l := range h.Lists {
+				b, a := prev[l.ID], cur[l.ID]
+				if rewritten(b, a) || !bytes.Equal(b.file, a.file) {
+					bad("C15/restart-changed-file", fmt.Sprintf("a restart changed the stored file of list %d: %q (exists %v, inode %d) -> %q (exists %v, inode %d)", l.ID, c15Short(string(b.file)), b.exists, b.ino, c15Short(string(a.file)), a.exists, a.ino))
+				}
+				if b.enabled != a.enabled || b.url != a.url {
+					bad("C15/restart-changed-list", fmt.Sprintf("a restart changed list %d: enabled %v -> %v, source %d -> %d", l.ID, b.enabled, a.enabled, b.url, a.url))
+				}
+				f := find(l.ID)
+				switch {
+				case b.enabled && b.exists:
+					classes["restart-enabled-stored-list"] = true
+					nontrivial = true
+					if b.count != a.count || b.sum != a.sum {
+						bad("C15/restart-changed-meta", fmt.Sprintf("list %d: the stored file %q had %d rules, checksum %08x before the restart; the start-up computes %d, %08x from it", l.ID, c15Short(string(b.file)), b.count, b.sum, a.count, a.sum))
+					}
+					if fi, serr := os.Stat(f.Path(dir)); serr != nil {
+						bad("C15/restart-last-updated", fmt.Sprintf("list %d: the stored file after the restart: %v", l.ID, serr))
+					} else if !f.LastUpdated.Equal(fi.ModTime()) {
+						bad("C15/restart-last-updated", fmt.Sprintf("list %d: the stored file was last replaced at %s, but after the restart the list's last update is %s", l.ID, fi.ModTime().Format(time.RFC3339Nano), f.LastUpdated.Format(time.RFC3339Nano)))
+					}
+				case b.enabled:
+					classes["restart-enabled-list-without-file"] = true
+					if a.count != b.count || a.sum != b.sum || !f.LastUpdated.IsZero() {
+						bad("C15/restart-changed-meta", fmt.Sprintf("list %d has no file; rule count %d -> %d, checksum %08x -> %08x, last update %v over the restart", l.ID, b.count, a.count, b.sum, a.sum, f.LastUpdated))
+					}
+				case b.exists:
+					classes["restart-disabled-stored-list"] = true
+					nontrivial = true
+				default:
+					classes["restart-disabled-list-without-file"] = true
+				}
+				switch {
+				case b.name != "" && a.name != b.name:
+					bad("C15/restart-changed-name", fmt.Sprintf("a restart renamed list %d from %q to %q", l.ID, b.name, a.name))
+				case b.name == "" && a.name != "":
+					classes["restart-names-nameless-list"] = true
+				case b.name == "":
+					classes["restart-nameless-list-stays"] = true
+				}
+			}
+			if fmt.Sprint(expected(cur)) != fmt.Sprint(curV) {
+				bad("C15/restart-not-from-files", fmt.Sprintf("after a restart the enabled lists' files give verdicts %v but %v are in force", expected(cur), curV))
+			}
+			if inStepBefore && fmt.Sprint(prevV) != fmt.Sprint(curV) {
+				bad("C15/restart-changed-verdicts", fmt.Sprintf("the rules in force were those of the stored files (verdicts %v); after a restart the verdicts are %v", prevV, curV))
+			}
+			if !inStepBefore {
+				classes["restart-catches-up-with-files"] = true
+			}
+			if failedSet != nil {
+				classes["failed-set-then-restart"] = true
+				if fmt.Sprint(failedSet.want) != fmt.Sprint(curV) {
+					bad("C15/failed-set-removed-file", fmt.Sprintf("set_url on list %d failed; the files stored before it give verdicts %v, but after the restart %v are in force", failedSet.id, failedSet.want, curV))
+				}
+			}
+			failedSet = nil
+			for id := range forgot {
+				// the checksum is recomputed from the file
+				delete(forgot, id)
+			}
+			var obs, vs []string
+			for _, l := range h.Lists {
+				obs = append(obs, c15ObsTerm(&defs, l.ID, prev[l.ID], cur[l.ID]))
+				delete(disabledOverRestart, l.ID)
+				delete(loadedAtRestart, l.ID)
+				switch {
+				case !cur[l.ID].enabled && cur[l.ID].exists:
+					disabledOverRestart[l.ID] = true
+				case cur[l.ID].enabled && cur[l.ID].exists:
+					loadedAtRestart[l.ID] = true
+				}
+			}
+			for _, v := range curV {
+				vs = append(vs, vfN(uint64(v)))
+				if v != 0 {
+					classes[map[int]string{1: "verdict-blocked", 2: "verdict-allowed", 9: "verdict-error"}[v]] = true
+				}
+			}
+			steps = append(steps, vfApp("RRestart", vfList("lobs", obs), vfList("N", vs)))
+			prev, prevV = cur, curV
+			continue
+		}
 		if st.Rebuild {
-			// Any other settings change, or a restart: the engine is rebuilt
+			// Any other settings change: the engine is rebuilt
 			// from the files of the enabled lists.
 			d.EnableFilters(false)
 			cur, curV := observe(), verdicts()
@@ -947,6 +1122,35 @@ func c15Run(t *testing.T, out *vfOut, srv *c15Server, h c15Hist, forced ...strin
 					if !a.enabled || a.count != srcRes.RulesCount {
 						bad("C15/enable-wrong-meta", fmt.Sprintf("list %d enabled with source %q: enabled %v, count %d, want %d", target.ID, data, a.enabled, a.count, srcRes.RulesCount))
 					}
+					// The download succeeded: what it delivered is stored, in its
+					// normal form (no file, or an empty one, for a text without
+					// rules), whatever was stored before, and its rules are in force.
+					wantFile := srcRes.Checksum != 0
+					if disabledOverRestart[target.ID] {
+						classes["set-enable-after-restart"] = true
+						if b.exists && bytes.Equal(b.file, srcNorm) && wantFile {
+							classes["set-enable-after-restart-same-content"] = true
+						}
+					}
+					if (wantFile && (!a.exists || !bytes.Equal(a.file, srcNorm))) || (!wantFile && a.exists && len(a.file) > 0) || a.sum != srcRes.Checksum {
+						after := ""
+						if disabledOverRestart[target.ID] {
+							after = " (disabled since before the last restart)"
+						}
+						bad("C15/enable-not-stored", fmt.Sprintf("list %d%s enabled; its source delivered %q (normal form %q, %d rules, checksum %08x) and no error was reported, but the stored file was %q (exists %v) and is now %q (exists %v); count %d, checksum %08x",
+							target.ID, after, c15Short(data), c15Short(string(srcNorm)), srcRes.RulesCount, srcRes.Checksum, c15Short(string(b.file)), b.exists, c15Short(string(a.file)), a.exists, a.count, a.sum))
+					}
+					for i, p := range c15Probes {
+						if c15Rules(srcNorm)[p] && curV[i] == 0 {
+							bad("C15/enabled-rules-not-in-force", fmt.Sprintf("list %d enabled with source %q without an error, but %s is neither blocked nor allowed (verdicts %v)", target.ID, c15Short(data), p, curV))
+						}
+					}
+				}
+			}
+			if serr == nil {
+				delete(disabledOverRestart, target.ID)
+				if !cur[target.ID].enabled || urlChange {
+					delete(loadedAtRestart, target.ID)
 				}
 			}
 			if serr == nil && st.Set.Name != "" && a.name != st.Set.Name {
@@ -1096,6 +1300,10 @@ func c15Run(t *testing.T, out *vfOut, srv *c15Server, h c15Hist, forced ...strin
 				if b.exists && stErr == nil && stRes.Checksum == srcRes.Checksum {
 					classes["ok-same-checksum"] = true
 					classes["same-checksum"+how] = true
+					if loadedAtRestart[l.ID] {
+						// the checksum the start-up computed from the file
+						classes["same-checksum-after-restart"] = true
+					}
 					if afterFailedURL[l.ID] {
 						classes["failed-url-change-then-same-content"] = true
 					}
@@ -1106,6 +1314,10 @@ func c15Run(t *testing.T, out *vfOut, srv *c15Server, h c15Hist, forced ...strin
 					classes["ok-updated"] = true
 					classes["updated"+how] = true
 					nontrivial = true
+					if loadedAtRestart[l.ID] {
+						classes["updated-after-restart"] = true
+					}
+					delete(loadedAtRestart, l.ID)
 					if afterFailedURL[l.ID] && srcRes.Checksum == 0 {
 						classes["failed-url-change-then-rule-less-content"] = true
 					}
@@ -1427,6 +1639,50 @@ func TestVerifC15(t *testing.T) {
 		steps = append(steps, setTo(id, true, 0, ok(b1)), rebuild)
 		c15Run(t, out, srv, c15Hist{Lists: three, Steps: steps})
 	}
+
+	// Restarts of the process.  A list is stored, disabled, the process
+	// restarts, and the list is enabled again while its source serves what is
+	// stored (the download succeeds with unchanged content: the file must stay,
+	// the rules must be in force); then with a failing source, with other
+	// content, with content without rules; refreshes delivering the stored
+	// content right after a restart (not rewritten: the start-up has computed the
+	// checksum from the file); a restart before anything is stored and one after
+	// a file has been removed.  For a block and an allow list.
+	restart := c15Step{Restart: true}
+	again := step(map[string]c15Script{"1": ok(b1), "2": ok(good2), "11": ok(a2)})
+	for _, id := range []int64{1, 11} {
+		content := map[int64]string{1: b1, 11: a2}[id]
+		c15Run(t, out, srv, c15Hist{Lists: three, Steps: []c15Step{
+			restart, first, restart, again,
+			setTo(id, false, 0, ok(content)), restart, setTo(id, true, 0, ok(content)), again,
+			setTo(id, false, 0, ok(content)), restart,
+			setTo(id, true, 0, c15Script{Kind: "status", Status: 500}), rebuild, restart,
+			setTo(id, true, 0, ok("! spelled differently\r\n  "+strings.ReplaceAll(content, "\n", "  \r\n"))),
+			setTo(id, false, 0, ok(content)), restart, setTo(id, true, 0, ok(good2+a1)),
+			setTo(id, false, 0, ok(content)), restart, setTo(id, true, 0, ok("# no rules\n")), restart,
+			again, restart,
+			{Block: true, Allow: true, Due: all, Scripts: map[string]c15Script{"1": ok(b1), "2": ok(good2), "11": ok(a2)}},
+		}}, "restart-prelude")
+	}
+	// A list without a name whose file is stored gets the default name at
+	// start-up; a restart after a pass that ended in a network error with the
+	// allow list's file already replaced puts the stored rules in force; a
+	// disabled list that was never stored; a local file.
+	c15Run(t, out, srv, c15Hist{Lists: []c15List{{ID: 1, Enabled: true, Name: ""}, {ID: 2, Enabled: false, Name: "never stored"}, {ID: 11, Allow: true, Enabled: true, Name: "list 11"}}, Steps: []c15Step{
+		step(map[string]c15Script{"1": ok(a2), "2": ok(good2), "11": ok(a2)}),
+		set(1, true, "", one(1, ok(a2))), restart,
+		step(map[string]c15Script{"1": c15Script{Kind: "status", Status: 500}, "2": ok(good2), "11": ok(allow1)}), restart,
+		sched(map[string]c15Script{"1": ok(a2), "2": ok(good2), "11": ok(allow1)}),
+		set(2, true, "never stored", one(2, ok(good2))), restart,
+		step(map[string]c15Script{"1": ok("<html>"), "2": ok(good2), "11": c15Script{Kind: "cut", Content: allow1, Cut: 3}}),
+	}}, "restart-prelude")
+	c15Run(t, out, srv, c15Hist{Lists: []c15List{{ID: 1, Enabled: true, Local: true, Name: "local"}}, Steps: []c15Step{
+		step(one(1, c15Script{Kind: "file-ok", Content: good1})), restart,
+		step(one(1, c15Script{Kind: "file-ok", Content: good1})),
+		set(1, false, "local", one(1, c15Script{Kind: "file-ok", Content: good1})), restart,
+		set(1, true, "local", one(1, c15Script{Kind: "file-ok", Content: good1})),
+		step(one(1, c15Script{Kind: "file-missing"})), restart,
+	}}, "restart-prelude")
 
 	// Binary content, byte by byte: a body whose only control byte besides LF
 	// is each of 0x00..0x1F, 0x7F in turn, at the start of a rule line, inside
